@@ -368,6 +368,12 @@ where
         let dyn_hash = self.stack.get_word(0);
         self.start_dyn_block(block, dyn_hash)?;
 
+        // when the DYN block is the body of a CALL (dyncall), the context was entered with the
+        // hash of the DYN block itself; the function executing in it is the dynamic target
+        if self.system.fn_hash() == Word::from(block.hash()) {
+            self.system.set_fn_hash(dyn_hash);
+        }
+
         // get dynamic code from the code block table and execute it
         let dyn_digest = dyn_hash.into();
         let dyn_code = cb_table
